@@ -65,11 +65,28 @@ func genC08(seed uint64, tier string) *plan.Plan {
 	if tier == "thorough" {
 		nOps = 5 + r.IntN(200)
 	}
+	// a slow collector and a second goroutine of the application sending through the same
+	// exporting process: messages wait their turn behind a send that is blocked on the full window
+	slow := !udp && r.IntN(3) == 0
+	if slow {
+		pl.Cfg["window"] = []int64{512, 2048, 8192}[r.IntN(3)]
+		pl.Cfg["sender2"] = 1
+	}
 	if r.IntN(3) == 0 {
 		// near the 2^32 wrap
 		pl.Ops = append(pl.Ops, plan.Op{K: "setseq", A: int64(uint32(0) - uint32(r.IntN(300)))})
 	}
 	for i := 0; i < nOps; i++ {
+		if slow && r.IntN(5) == 0 {
+			// the collector stops reading for a while; the second sender is told to send (a new
+			// template, or records under one of its templates) and the application sends something big
+			pl.Ops = append(pl.Ops, plan.Op{K: "stallnow", B: int64(500 + r.IntN(7000))})
+			for k := 1 + r.IntN(2); k > 0; k-- {
+				pl.Ops = append(pl.Ops, plan.Op{K: "send2", A: int64(r.IntN(800)), B: int64(r.IntN(4)), C: int64(r.Uint64() >> 1), N: pickElems(r, 1+r.IntN(4), false)})
+			}
+			pl.Ops = append(pl.Ops, plan.Op{K: "data", A: int64(r.IntN(nT)), B: int64(20 + r.IntN(30)), C: int64(r.Uint64() >> 1), D: int64(100 + r.IntN(200))})
+			continue
+		}
 		switch x := r.IntN(10); {
 		case x < 6:
 			pl.Ops = append(pl.Ops, plan.Op{K: "data", A: int64(r.IntN(nT)), B: int64(1 + r.IntN(1+r.IntN(40))), C: int64(r.Uint64() >> 1), D: int64(r.IntN(300)),
@@ -102,12 +119,12 @@ func genC08(seed uint64, tier string) *plan.Plan {
 		default:
 			// moving the counter by hook in mid-session is only meaningful when no background send
 			// can be in flight (the hook is not part of the library's synchronisation): tcp only
-			if !udp && r.IntN(4) == 0 {
+			if !udp && !slow && r.IntN(4) == 0 {
 				pl.Ops = append(pl.Ops, plan.Op{K: "setseq", A: int64(uint32(0) - uint32(r.IntN(100)))})
 			}
 		}
 	}
-	if r.IntN(4) == 0 {
+	if !slow && r.IntN(4) == 0 {
 		// a transport write fault on the application's last send (the stream is unusable afterwards)
 		kind := int64(1 + r.IntN(3))
 		if udp {
@@ -130,10 +147,18 @@ func runC08(pl *plan.Plan, out *plan.Outcome) {
 			return
 		}
 		sess = s
+		if cfgOr(pl, "sender2", 0) == 1 {
+			s.startSecondSender()
+		}
 		// split ops at setseq so the oracle knows where the counter was moved
 		s.appGIDInit()
 		for i, op := range pl.Ops {
 			s.runOps1(i, op)
+		}
+		if s.send2Ch != nil {
+			// let the second sender finish what it was asked to do
+			close(s.send2Ch)
+			s.env.Sleep(10 * time.Second)
 		}
 		s.closeExporter()
 	})
